@@ -230,9 +230,11 @@ def run_bounded(rep):
               bound=f"n <= {nfull + 1}, weights in {{1,2,3}}, scalings {SCALINGS}", cases=_base_cases(nfull, per, rep.seed), check_case=_check_base, exhaustive=False)
     narrow = [(n, k, dt, int(n * fr), rep.seed + i) for i, (n, k, dt, fr) in enumerate(itertools.product((50, 100, 300) if not thorough else (50, 100, 300, 1000), (2, 3),
                                                                                                     (np.uint8, np.int8, np.uint16, np.int32, np.int64), (0.3, 0.9, 1.0)))]
+    narrow += [(n, k, dt, int(n * fr), rep.seed + 1000 + i) for i, (n, k, dt, fr) in enumerate(itertools.product((1000, 3000), (2, 3), (np.float16, np.float32), (0.3, 0.9)))]
     run_cases(rep, "narrow_integer_weight_dtypes",
-              rule="n in {50,100,300} rows x weight k in {2,3} stored as uint8/int8/uint16/int32/int64 x 30%/90%/100% positive predictions (int and uint8 predictions): the 6 base "
-                   "functions weighted vs k copies of every row (sums beyond the range of the weight dtype); distinct by full case", bound="n <= 300 (1000 thorough)",
+              rule="n in {50,100,300} rows x weight k in {2,3} stored as uint8/int8/uint16/int32/int64 x 30%/90%/100% positive predictions (int and uint8 predictions), plus n in "
+                   "{1000,3000} with the weights stored as float16/float32 (totals beyond the exact integer range of float16): the 6 base "
+                   "functions weighted vs k copies of every row (sums beyond the range of the weight dtype); distinct by full case", bound="n <= 300 (1000 thorough); 3000 for float16/32",
               cases=narrow, check_case=_check_narrow, exhaustive=False)
     nmax, nw, count = (4, 4, 3000) if thorough else (3, 2, 500)
     run_cases(rep, "metricframe_and_fairness",
